@@ -4,6 +4,6 @@ EXTENDS Transport, Json
 Quiet == /\ \A s \in Senders : spc[s] \in {"done", "dead"}
          /\ rpc = "idle" /\ call > Len(Plan)
 
-Export == Quiet => PrintT("@@" \o ToJson([sched |-> sched, rlog |-> rlog,
+Export == Quiet => PrintT("@@" \o ToJson([sched |-> sched, rlog |-> rlog, slog |-> slog, falseOk |-> falseOk,
                                          delivered |-> [d \in 1..Len(delivered) |-> delivered[d][1][1]]]))
 =============================================================================
